@@ -195,17 +195,19 @@ def gen_formula_recipes(rng, n):
             head = 'CVlookup %s %s %s %s' % (C.cval(lvv), C.clist(tj), C.cz(col), C.cval(rl))
         elif r < 0.65:
             mt = rng.choice([0, 1])
-            f = '=MATCH(%s,A1:A%d,%d)' % (lit, rows, mt)
+            wc = mt == 0 and any(type(k) is type(lv) and k == lv for k in ks) and rng.random() < 0.4          # a whole-column key array: the hit lies inside the table
+            f = '=MATCH(%s,%s,%d)' % (lit, rng.choice(['A:A', '$A:$A']) if wc else 'A1:A%d' % rows, mt)
             head = 'CMatch %s %s %s' % (C.cval(lvv), C.clist([C.cval([row[0]]) for row in table]), C.cz(mt))
         elif r < 0.8:
-            f = '=XMATCH(%s,A1:A%d,0)' % (lit, rows)
+            wc = any(type(k) is type(lv) and k == lv for k in ks) and rng.random() < 0.4
+            f = '=XMATCH(%s,%s,0)' % (lit, 'A:A' if wc else 'A1:A%d' % rows)
             head = 'CXmatch %s %s %s %s' % (C.cval(lvv), C.clist([C.cval([row[0]]) for row in table]), C.cz(0), C.cz(1))
         else:
             rr, cc = rng.randint(1, rows + 1), rng.randint(1, 4)
             f = '=INDEX(A1:C%d,%d,%d)' % (rows, rr, cc)
             head = 'CIndex %s %s %s %s' % (C.clist(tj), C.cz(rr), C.copt(cc, C.cz), C.cz(1))
-        rec = {'kind': 'formula', 'formula': f, 'cells': cells, 'coq_head': head, 'xsheet': rng.random() < 0.4}
-        if not rec['xsheet'] and rows >= 3 and rng.random() < 0.35:
+        rec = {'kind': 'formula', 'formula': f, 'cells': cells, 'coq_head': head, 'xsheet': rng.random() < 0.4 and ':A,' not in f and ':$A,' not in f}
+        if not rec['xsheet'] and rows >= 3 and rng.random() < 0.35 and ':A,' not in f and ':$A,' not in f:
             k = rng.randint(1, 2)
             rec['append'] = {a: v for a, v in cells.items() if int(a[1:]) > rows - k}
         out.append(rec)
